@@ -95,11 +95,15 @@ def mergeShapes (p o : Option Shape) : Except Unit (Option Shape) :=
 
 /-! ## Symbolic broadcasting (`_remove_expand_before_binary_op.py`) -/
 
+/-- `_same_dim(d1, d2)` of `_remove_expand_before_binary_op.py` (commit 9477c4c): `d1 == d2` as a fact
+about run-time values — unnamed dims are never known to be equal. -/
+def semEq (d1 d2 : Dim) : Bool := !d1.isUnknown && !d2.isUnknown && decide (d1 = d2)
+
 /-- `_compute_broadcast_dim`. -/
 def bcastDim (d1 d2 : Dim) : Option Dim :=
   if d1 = .known 1 then some d2
   else if d2 = .known 1 then some d1
-  else if d1 = d2 then some d1
+  else if semEq d1 d2 then some d1
   else none
 
 def seqOpt {α} : List (Option α) → Option (List α)
@@ -120,9 +124,9 @@ def bcastShapeN : Nat → Shape → Shape → Option Shape
 def bcastShape (s1 s2 : Shape) : Option Shape :=
   (bcastShapeN (max s1.length s2.length) s1.reverse s2.reverse).map List.reverse
 
-/-- per-dimension test of `_check_dims_sufficient`. -/
+/-- per-dimension test of `_check_dims_sufficient` (`isinstance(e_d, int) and e_d == 1`, `_same_dim`). -/
 def dimOk2 (e x y : Dim) : Bool :=
-  decide (e = .known 1) || decide (x = e) || decide (y = e)
+  decide (e = .known 1) || semEq x e || semEq y e
 
 /-- per-dimension test of strategy 1 (constant expand shape; `isinstance(x_d, int) and x_d == e_d`). -/
 def dimOk1 (e : Int) (x y : Dim) : Bool :=
@@ -134,29 +138,42 @@ def suffRev : Shape → Shape → Shape → Nat → Option Nat
   | [], _, _, _ => none
   | e :: es, x, y, k => if dimOk2 e (hd1 x) (hd1 y) then suffRev es x.tail y.tail (k + 1) else some k
 
-/-- `_check_dims_sufficient(expand_shape, x_shape, y_shape)`: `none` = success, `some i` = the
-dimension index `i = e_rank - 1 - rev_i` named in the failure reason. -/
-def dimsSufficient (e x y : Shape) : Option Nat :=
-  (suffRev e.reverse x.reverse y.reverse 0).map fun k => e.length - 1 - k
+inductive SuffVerdict where
+  | ok
+  | rankFail              -- "Expand adds leading dimensions that neither operand has." (commit 48b48d2)
+  | dimFail (i : Nat)     -- "Cannot verify … at dimension i"
+  deriving DecidableEq, Repr
+
+/-- `_check_dims_sufficient(expand_shape, x_shape, y_shape)`; `dimFail i` names the dimension index
+`i = e_rank - 1 - rev_i` of the failure reason. -/
+def dimsSufficient (e x y : Shape) : SuffVerdict :=
+  if e.length > max x.length y.length then .rankFail
+  else match suffRev e.reverse x.reverse y.reverse 0 with
+    | none => .ok
+    | some k => .dimFail (e.length - 1 - k)
 
 /-- The loop of strategy 1 (expand target is a constant) on reversed lists. -/
 def s1Rev : List Int → Shape → Shape → Nat → Option Nat
   | [], _, _, _ => none
   | e :: es, x, y, k => if dimOk1 e (hd1 x) (hd1 y) then s1Rev es x.tail y.tail (k + 1) else some k
 
-def strategy1 (e : List Int) (x y : Shape) : Option Nat :=
-  (s1Rev e.reverse x.reverse y.reverse 0).map fun k => e.length - 1 - k
+/-- Strategy 1 (constant target), with the rank guard of commit 48b48d2. -/
+def strategy1 (e : List Int) (x y : Shape) : SuffVerdict :=
+  if e.length > max x.length y.length then .rankFail
+  else match s1Rev e.reverse x.reverse y.reverse 0 with
+    | none => .ok
+    | some k => .dimFail (e.length - 1 - k)
 
-/-- Strategy 3: `computed is not None and len(computed) == rank and all(c == a for c, a in zip(…))`. -/
+/-- Strategy 3: `computed is not None and len(computed) == rank and all(_same_dim(c, a) for c, a in zip(…))`. -/
 def strategy3 (x y out : Shape) : Bool :=
   match bcastShape x y with
-  | some c => decide (c = out)
+  | some c => decide (c.length = out.length) && (List.zipWith semEq c out).all id
   | none => false
 
 inductive ExpandVerdict where
   | noShapes                 -- "Input shapes are not known."
-  | ok1 | fail1 (i : Nat)    -- strategy 1
-  | ok2 | fail2 (i : Nat)    -- strategy 2
+  | ok1 | fail1 (i : Nat) | rank1   -- strategy 1
+  | ok2 | fail2 (i : Nat) | rank2   -- strategy 2
   | ok3 | fail3              -- strategy 3
   | noInfo                   -- "Expand target shape is not a constant and no shape annotations …"
   deriving DecidableEq, Repr
@@ -173,10 +190,10 @@ def expandRemovable (xs ys : Option Shape) (const : Option (List Int)) (eOut bOu
   match xs, ys with
   | some x, some y =>
     match const with
-    | some e => (match strategy1 e x y with | none => .ok1 | some i => .fail1 i)
+    | some e => (match strategy1 e x y with | .ok => .ok1 | .rankFail => .rank1 | .dimFail i => .fail1 i)
     | none =>
       match eOut with
-      | some eo => (match dimsSufficient eo x y with | none => .ok2 | some i => .fail2 i)
+      | some eo => (match dimsSufficient eo x y with | .ok => .ok2 | .rankFail => .rank2 | .dimFail i => .fail2 i)
       | none =>
         match bOut with
         | some o => if strategy3 x y o then .ok3 else .fail3
@@ -497,5 +514,46 @@ def materializeBefore49df852 (outShape : Option Shape) (shapeIsConst : Bool) : O
     if (o.filter (fun d => !d.isInt)).length ≤ 1 then
       some (o.map (fun d => match d with | .known n => n | _ => -1))
     else none
+
+/-! ### expand-before-binary-op as it was before commits 48b48d2 / 9477c4c (findings C09-N2, C09-N1) -/
+
+def bcastDimBefore9477c4c (d1 d2 : Dim) : Option Dim :=
+  if d1 = .known 1 then some d2
+  else if d2 = .known 1 then some d1
+  else if d1 = d2 then some d1
+  else none
+
+def bcastShapeNBefore9477c4c : Nat → Shape → Shape → Option Shape
+  | 0, _, _ => some []
+  | n + 1, x, y => (bcastDimBefore9477c4c (hd1 x) (hd1 y)).bind fun d => (bcastShapeNBefore9477c4c n x.tail y.tail).map (d :: ·)
+
+def bcastShapeBefore9477c4c (s1 s2 : Shape) : Option Shape :=
+  (bcastShapeNBefore9477c4c (max s1.length s2.length) s1.reverse s2.reverse).map List.reverse
+
+def dimOk2Before9477c4c (e x y : Dim) : Bool :=
+  decide (e = .known 1) || decide (x = e) || decide (y = e)
+
+def suffRevBefore9477c4c : Shape → Shape → Shape → Nat → Option Nat
+  | [], _, _, _ => none
+  | e :: es, x, y, k =>
+    if dimOk2Before9477c4c e (hd1 x) (hd1 y) then suffRevBefore9477c4c es x.tail y.tail (k + 1) else some k
+
+/-- `_check_dims_sufficient` before both fixes: no rank guard, Python `==` on dims. -/
+def dimsSufficientBefore (e x y : Shape) : Option Nat :=
+  (suffRevBefore9477c4c e.reverse x.reverse y.reverse 0).map fun k => e.length - 1 - k
+
+/-- strategy 2 with the rank guard (48b48d2) but still Python `==` (before 9477c4c). -/
+def dimsSufficientBefore9477c4c (e x y : Shape) : Option Nat :=
+  if e.length > max x.length y.length then some 0 else dimsSufficientBefore e x y
+
+/-- strategy 1 before commit 48b48d2: no rank guard. -/
+def strategy1Before48b48d2 (e : List Int) (x y : Shape) : Option Nat :=
+  (s1Rev e.reverse x.reverse y.reverse 0).map fun k => e.length - 1 - k
+
+/-- strategy 3 before commit 9477c4c. -/
+def strategy3Before9477c4c (x y out : Shape) : Bool :=
+  match bcastShapeBefore9477c4c x y with
+  | some c => decide (c = out)
+  | none => false
 
 end OV.C09
